@@ -56,6 +56,7 @@ def _check_main(run, P):
     from .c01 import _alias
     from . import c10 as _c10
     _alias(run, "C10.cycle", "C16.ids", lambda: _c10._edges_kept(run, P))
+    run.do(_c10._field_relations, run, P, "C16.ids")
     run.do(_agree, run, P)
     run.do(_phases, run, P)
     run.do(_table, run, P)
